@@ -92,6 +92,13 @@ def vis_script_and_probes(h, only=None):
     L.append("function sink($x) { return 1; }")
     L.append("function setref(&$x) { $x = 77; return 1; }")
     L.append('function deny() { throw new Exception("not listed"); }')
+    # free functions (written outside every class), called from methods
+    for x in h.declaring:
+        for n, kind, tag in h.members(x):
+            if kind == "prop":
+                L.append("function fn_rd_%s($o) { return $o->%s; } function fn_wr_%s($o, $v) { $o->%s = $v; return 1; }" % (n, n, n, n))
+            elif kind == "meth":
+                L.append("function fn_cl_%s($o) { return $o->%s(); }" % (n, n))
     for k, par in h.classes:
         L.append("class %s%s {" % (k, (" extends " + par) if par else ""))
         init = {"pu": 1, "pr": 2, "pv": 3}
@@ -109,6 +116,14 @@ def vis_script_and_probes(h, only=None):
                 L.append('  %s function %s() { return "%s"; }' % (mod, n, n))
             else:
                 L.append('  %s static function %s() { return "%s"; }' % (mod, n, n))
+        L.append("  public function me_%s() { return $this; }" % k)
+        for x in h.declaring:
+            for n, kind, tag in h.members(x):
+                if kind == "prop":
+                    L.append("  public function %s_frd_%s($o) { return fn_rd_%s($o); }" % (k, n, n))
+                    L.append("  public function %s_fwr_%s($o, $v) { return fn_wr_%s($o, $v); }" % (k, n, n))
+                elif kind == "meth":
+                    L.append("  public function %s_fcl_%s($o) { return fn_cl_%s($o); }" % (k, n, n))
         # accessors: code written in class k (names carry k, so an inherited copy keeps its lexical class)
         L.append("  public function %s_dyrd($o, $n) { return $o->{$n}; }" % k)
         L.append("  public function %s_dywr($o, $n, $v) { $o->{$n} = $v; return 1; }" % k)
@@ -160,20 +175,20 @@ def vis_script_and_probes(h, only=None):
 
     cur = {"mark": ""}
 
-    def rd(expr, site, path, c, m, d, tag, extra=None):
+    def rd(expr, site, path, c, m, d, tag, extra=None, **kw):
         extra = cur["mark"] if extra is None else extra
         if only and only != (tuple(site), path, c, m):
             return
         L.append('try { sink(%s); echo "A\\n"; } catch (Throwable $e) { echo "D\\n"; }' % expr)
-        probes.append({"site": site, "path": path, "c": c, "m": m, "d": d, "tag": tag, "store": None, "extra": extra})
+        probes.append(dict({"site": site, "path": path, "c": c, "m": m, "d": d, "tag": tag, "store": None, "extra": extra}, **kw))
 
-    def wr(stmt, readback, site, path, c, m, d, tag, init, extra=None, expect="77"):
+    def wr(stmt, readback, site, path, c, m, d, tag, init, extra=None, expect="77", **kw):
         extra = cur["mark"] if extra is None else extra
         if only and only != (tuple(site), path, c, m):
             return
         # $t is a fresh target; the value is read back through a getter of the declaring class
         L.append('$t = new %s(); try { %s echo "A"; } catch (Throwable $e) { echo "D"; } echo ":", %s, "\\n";' % (c, stmt, readback))
-        probes.append({"site": site, "path": path, "c": c, "m": m, "d": d, "tag": tag, "store": init, "extra": extra, "expect": expect})
+        probes.append(dict({"site": site, "path": path, "c": c, "m": m, "d": d, "tag": tag, "store": init, "extra": extra, "expect": expect}, **kw))
 
     init = {"pu": 1, "pr": 2, "pv": 3}
     targets = [n for n, _ in h.classes if h.resolvable(n, "prop")]
@@ -203,6 +218,17 @@ def vis_script_and_probes(h, only=None):
                 wr("setref($t->%s);" % n, "$t->pk_%s()" % n, ["out"], "PRefArg", c, n, d, tag, init[tag])
                 L.append('$seen = 0; foreach ($o as $k => $v) { if ($k == "%s") { $seen = 1; } }' % n)
                 rd('$seen ? 1 : deny()', ["out"], "PForeach", c, n, d, tag)
+            # `$this` handed out by a method (return $this): the value is a ThisValue, whose access paths have no check
+            L.append("$e = $o->me_%s();" % c)
+            for n, d, tag in keep(h.resolvable(c, "prop")):
+                rd("$e->%s" % n, ["out"], "PThisRead", c, n, d, tag, "escaped-this" + ("," + mark if mark else ""), pathname="escaped-this-read")
+                wr("$te = $t->me_%s(); $te->%s = 77;" % (c, n), "$t->pk_%s()" % n, ["out"], "PThisWrite", c, n, d, tag, init[tag],
+                   "escaped-this" + ("," + mark if mark else ""), pathname="escaped-this-write")
+            for n, d, tag in keep(h.resolvable(c, "meth")):
+                rd("$e->%s()" % n, ["out"], "PThisCall", c, n, d, tag, "escaped-this" + ("," + mark if mark else ""), pathname="escaped-this-call")
+            for n, d, tag in keep(h.resolvable(c, "smeth")):
+                # a static method called through an OBJECT expression: CallStaticMethod returns the method without the check
+                rd("$o::%s()" % n, ["out"], "PStaticKwCall", c, n, d, tag, "object-static-call" + ("," + mark if mark else ""), pathname="object-static-call")
             for n, d, tag in keep(h.resolvable(c, "aprop")):
                 wr("$t->%s[] = 5;" % n, "$t->pk_%s()" % n, ["out"], "PNestedAppend", c, n, d, tag, "[0]", expect="[0,5]")
             for n, d, tag in keep(h.resolvable(c, "meth")):
@@ -236,6 +262,12 @@ def vis_script_and_probes(h, only=None):
                         wr("$s->%s_un_%s($t);" % (l, n), "$t->pk_%s()" % n, site, "PUnset", c, n, d, tag, init[tag], expect="")
                         wr("$s->%s_ref_%s($t);" % (l, n), "$t->pk_%s()" % n, site, "PRefArg", c, n, d, tag, init[tag])
                         rd('$s->%s_fe($o, "%s")' % (l, n), site, "PForeach", c, n, d, tag)
+                    for n, d, tag in keep(h.resolvable(c, "prop")):
+                        # the access is written in a free FUNCTION that a method of l (running on r) calls
+                        rd("$s->%s_frd_%s($o)" % (l, n), site, "PArrowRead", c, n, d, tag, "fn" + ("," + mark if mark else ""), written="function")
+                        wr("$s->%s_fwr_%s($t, 77);" % (l, n), "$t->pk_%s()" % n, site, "PArrowWrite", c, n, d, tag, init[tag], "fn" + ("," + mark if mark else ""), written="function")
+                    for n, d, tag in keep(h.resolvable(c, "meth")):
+                        rd("$s->%s_fcl_%s($o)" % (l, n), site, "PCall", c, n, d, tag, "fn" + ("," + mark if mark else ""), written="function")
                     for n, d, tag in keep(h.resolvable(c, "aprop")):
                         wr("$s->%s_ap_%s($t);" % (l, n), "$t->pk_%s()" % n, site, "PNestedAppend", c, n, d, tag, "[0]", expect="[0,5]")
                     for n, d, tag in keep(h.resolvable(c, "meth")):
@@ -297,13 +329,16 @@ def coq_table(h):
 def coq_vprobe(p, allowed, changed):
     s = p["site"]
     site = "Outside" if s[0] == "out" else 'InMethod "%s" "%s"' % (s[1], s[2])
+    ssite = "Outside" if (s[0] == "out" or p.get("written") == "function") else site
     ch = "None" if changed is None else "(Some %s)" % ("true" if changed else "false")
-    return '{| v_site := %s; v_path := %s; v_cls := "%s"; v_mem := "%s"; v_allowed := %s; v_changed := %s |}' % (
-        site, p["path"], p["c"], p["m"], "true" if allowed else "false", ch)
+    return '{| v_site := %s; v_ssite := %s; v_path := %s; v_cls := "%s"; v_mem := "%s"; v_allowed := %s; v_changed := %s |}' % (
+        site, ssite, p["path"], p["c"], p["m"], "true" if allowed else "false", ch)
 
 
 def sitekind(h, p):
     s = p["site"]
+    if p.get("written") == "function":
+        return "function-called-from-method"
     if s[0] == "out":
         return "outside"
     l, d = s[1], p["d"]
@@ -720,7 +755,7 @@ def main(ck):
             bad[int(mm.group(1))] = [int(x) for x in re.sub(r"%nat|\s", "", mm.group(2)).split(";") if x]
         for k, cls in sorted(bad.items()):
             p = probes[k]
-            key_base = "vis:%s:%s:%s" % (PATHNAME[p["path"]], {"pu": "public", "pr": "protected", "pv": "private"}[p["tag"]], sitekind(h, p))
+            key_base = "vis:%s:%s:%s" % (p.get("pathname") or PATHNAME[p["path"]], {"pu": "public", "pr": "protected", "pv": "private"}[p["tag"]], sitekind(h, p))
             rep = {"shape": h.classes, "declaring": h.declaring, "probe": {x: p[x] for x in ("site", "path", "c", "m", "d", "tag", "extra")},
                    "impl_out": p["obs"], "clauses": cls, "detail": detail(h, p)}
             if 9 in cls:
